@@ -1,6 +1,7 @@
 import EtVerif.Props.C02
 import EtVerif.Props.TrC09
 import EtVerif.Props.TrC01
+import EtVerif.Props.TrC02
 #print axioms EtVerif.C02.step_den
 #print axioms EtVerif.C02.step_wf
 #print axioms EtVerif.C02.step_mass
@@ -29,3 +30,4 @@ import EtVerif.Props.TrC01
 #print axioms EtVerif.TrC01.compute_refuses_validation
 #print axioms EtVerif.TrC01.compute_schedule
 #print axioms EtVerif.TrC01.compute_default_schedule
+#print axioms EtVerif.TrC02.go_compute_distribution
